@@ -35,8 +35,8 @@ BOUNDS = {
              'second concrete recipient; header block from a menu, body of '
              'b<=2 symbolic bytes; server advertising SIZE and/or AUTH or '
              'neither; the edge answering end-of-data with a symbolic 2xx/'
-             '4xx/5xx code, or refusing the sender, every recipient or the '
-             'first recipient with a symbolic 4xx/5xx code.  HTTP hop: the same address forms through '
+             '4xx/5xx code, or refusing the sender, every recipient, the '
+             'first or the last recipient with a symbolic 4xx/5xx code.  HTTP hop: the same address forms through '
              '_build_headers -> (headers joined with ", ") -> _get_sender / '
              '_get_recipients, reply header round trip with a symbolic code',
     'thorough': 'k<=3, b<=2',
@@ -199,10 +199,11 @@ def run_smtp(cell):
     verdict = None if vclass == 0 else \
         ['4', '5'][vclass - 1] + api.sstr('vcode', 2, 0x30, 0x39)
     # where the edge refuses: 0 = at end of data (queue verdict), 1 = the
-    # sender, 2 = every recipient, 3 = the first recipient only
-    stage = api.choice('stage', 4) if verdict is not None and \
+    # sender, 2 = every recipient, 3 = the first recipient only, 4 = the
+    # last recipient only
+    stage = api.choice('stage', 5) if verdict is not None and \
         cell.get('stages') else 0
-    if stage == 3:
+    if stage in (3, 4):
         # a 421 reply ends the session: no partial delivery to judge
         api.assume(verdict != '421')
     queue = RecQueue(verdict if stage == 0 else None)
@@ -218,7 +219,8 @@ def run_smtp(cell):
 
             def handle_rcpt(self, reply, recipient, params):
                 if stage == 2 or (stage == 3 and
-                                  recipient != 'second@example.com'):
+                                  recipient != 'second@example.com') or \
+                        (stage == 4 and recipient == 'second@example.com'):
                     reply.code = verdict
                     reply.message = 'edge refuses the recipient'
         kw['validator_class'] = Refuse
@@ -298,6 +300,8 @@ def run_smtp(cell):
         return
     if stage == 3:
         rcpts_expected = rcpts[1:]
+    elif stage == 4:
+        rcpts_expected = rcpts[:1]
     else:
         rcpts_expected = rcpts
     if not api.prove(len(queue.got) == 1, 'edge-did-not-receive-the-message',
@@ -328,12 +332,12 @@ def run_smtp(cell):
                 api.prove(str(adv[name]) == seen[name],
                           'extension-parameter-changed', name=name, **info)
     # the relay reports what the edge answered
-    if stage == 3:
+    if stage in (3, 4):
         if api.prove(kind == 'value' and hasattr(val, 'values'),
                      'partial-refusal-not-reported-per-recipient', **info):
             vals = list(val.values())
             if api.prove(len(vals) == 2, 'result-count-differs', **info):
-                v0, v1 = vals
+                v0, v1 = vals if stage == 3 else vals[::-1]
                 api.prove(isinstance(v0, RelayError) and
                           v0.reply.code == verdict,
                           'result-code-differs-from-edge-reply', rcpt=0,
